@@ -3,6 +3,7 @@ import CorsVerif.Proofs.Pattern
 import CorsVerif.Spec.Denote
 import CorsVerif.Spec.Fetch
 import CorsVerif.Proofs.Accepted
+import CorsVerif.Proofs.Accept
 /-
   C01 — Allowed origins are exactly the union of what the configured patterns denote.
 
@@ -501,6 +502,99 @@ theorem C01_request (ext : Ext) (hext : ∀ h info, ext.ip6 h = some info → h.
   | none => rfl
   | some o => exact C01_config ext hext cfg icfg acc hns o (parse_port_le hp)
 
+/-! ### Origins as browsers serialise them -/
+
+/-- The origin a serialised origin string stands for. -/
+def Spec.DocPattern.origin (d : Spec.DocPattern) : Origin where
+  scheme := d.scheme
+  host := { value := d.host, assumeIP := false }
+  port := match d.port with
+    | .absent => 0
+    | .num ds => Spec.portValue ds
+    | .any => 0
+
+open Spec Accept in
+/-- **The request-side lexer reads every serialised origin with a domain host**: scheme, `://`,
+letter-digit-hyphen labels (optionally a trailing dot), optionally `:` and a port 1-65535 without
+leading zeros — exactly into its parts, up to the longest possible such string. -/
+theorem C01_browser_parse (d : DocPattern) (hs : docScheme d.scheme = true) (hd : docDomain d.labels = true)
+    (hp : docPortOK d.port = true) (hw : d.wildcard = false) (hany : d.port ≠ .any) :
+    Lex.parse d.render = some d.origin := by
+  have hL := labels_of_doc hd
+  have hsep : Spec.b "://" = [58, 47, 47] := by decide
+  have hrender : d.render = d.scheme ++ (58 :: 47 :: 47 :: (hostOf d.labels d.trailingDot ++ d.portString)) := by
+    unfold DocPattern.render DocPattern.hostPattern DocPattern.host hostOf
+    rw [hsep, hw]
+    simp
+  have hstops : Stops d.portString := by
+    unfold DocPattern.portString
+    cases d.port with
+    | absent => exact Or.inl rfl
+    | num ds => exact stops_colon ds
+    | any => exact stops_colon [42]
+  have hlen : ¬ (d.render.length > Facts.origins_Parse_maxOriginLen) := by
+    have h1 : d.scheme.length ≤ 64 := by
+      unfold docScheme at hs
+      cases hsc : d.scheme with
+      | nil => rw [hsc] at hs; simp at hs
+      | cons c t =>
+        rw [hsc] at hs
+        simp only [Bool.and_eq_true, decide_eq_true_eq] at hs
+        exact hs.1.2
+    have h2 : (hostOf d.labels d.trailingDot).length ≤ 254 := by
+      unfold hostOf
+      have := hL.len
+      cases d.trailingDot <;> simp <;> omega
+    have h3 : d.portString.length ≤ 6 := by
+      unfold DocPattern.portString
+      cases hpt : d.port with
+      | absent => simp
+      | any => simp
+      | num ds =>
+        rw [hpt] at hp
+        unfold docPortOK at hp
+        simp only [Bool.and_eq_true, decide_eq_true_eq] at hp
+        simp only [List.length_cons]
+        omega
+    rw [hrender]
+    simp only [List.length_append, List.length_cons, Facts.origins_Parse_maxOriginLen]
+    omega
+  unfold Lex.parse
+  rw [if_neg hlen, hrender, parseScheme_doc hs _ (by simp only [List.head?_cons, Option.all_some]; decide)]
+  simp only []
+  have hcut : Bytes.cutPrefix (58 :: 47 :: 47 :: (hostOf d.labels d.trailingDot ++ d.portString)) Facts.origins_schemeHostSep =
+      some (hostOf d.labels d.trailingDot ++ d.portString) := by
+    simp [Facts.origins_schemeHostSep, Bytes.cutPrefix]
+  rw [hcut]
+  simp only []
+  rw [fastParseHost_doc hL d.trailingDot _ hstops]
+  simp only []
+  unfold DocPattern.origin DocPattern.host hostOf DocPattern.portString
+  cases hport : d.port with
+  | absent => simp
+  | any => exact absurd hport hany
+  | num ds =>
+    rw [hport] at hp
+    simp only [List.isEmpty_cons, Bool.false_eq_true, if_false]
+    have : Bytes.cutPrefix (58 :: ds) [Facts.origins_hostPortSep] = some ds := by
+      simp [Bytes.cutPrefix, Facts.origins_hostPortSep]
+    rw [this]
+    simp only []
+    rw [parsePort_doc ds hp]
+    simp
+
+open Spec Accept in
+/-- **C01 at the level of header values.** For an accepted configuration without `*` and every
+serialised origin with a domain host, the middleware's origin decision on the *string* is: some
+listed pattern denotes the origin the string stands for. -/
+theorem C01_browser (ext : Ext) (hext : ∀ h info, ext.ip6 h = some info → h.head? ≠ some 42)
+    (cfg : Config) (icfg : ICfg) (acc : newInternalConfig ext cfg = .ok icfg)
+    (hns : cfg.origins.contains Validate.star = false)
+    (d : DocPattern) (hs : docScheme d.scheme = true) (hd : docDomain d.labels = true)
+    (hp : docPortOK d.port = true) (hw : d.wildcard = false) (hany : d.port ≠ .any) :
+    (Serve.modelDec icfg).allowed d.render = (parsedPatterns ext cfg.origins).any (fun p => Spec.denotes p d.origin) := by
+  rw [C01_request ext hext cfg icfg acc hns, C01_browser_parse d hs hd hp hw hany]
+
 /-- Non-vacuity: hosts sharing a byte suffix that is not a label boundary (`foo.com`, `barfoo.com`)
 and a wildcard; `xfoo.com` is a near miss of both. -/
 def ex1 : Pattern := { scheme := Spec.b "https", value := Spec.b "foo.com", kind := .domain, port := 0 }
@@ -518,5 +612,7 @@ example : [ex1, ex2, ex3].any (fun p => Spec.denotes p
 #print axioms C01_config
 #print axioms C01_allow_all
 #print axioms C01_request
+#print axioms C01_browser_parse
+#print axioms C01_browser
 
 end Cors
